@@ -1,5 +1,5 @@
 (** C02 — pinned statements about the Go checker *)
-From Goml Require Import Common.Base Sem.GoAst C02.GoCheck.
+From Goml Require Import Common.Base Sem.GoAst C02.GoCheck C02.Closed.
 Open Scope N_scope.
 
 Lemma list_eqb_true_eq (a b : str) : list_eqb a b = true -> a = b.
@@ -42,6 +42,13 @@ Proof.
   apply map_eq_nil in H. apply dups_nil in H. tauto.
 Qed.
 Print Assumptions accepted_files_declare_top_level_names_once.
+
+(** an expression on which the checker reports nothing only reads names that are declared in an
+    enclosing scope, are top-level functions, Go builtins / conversions, or qualified by an imported package *)
+Theorem accepted_expressions_mention_declared_names_only :
+  forall g fuel sc e, snd (synth g fuel sc e) = [] -> Forall (declared g sc) (reads_e fuel e).
+Proof. exact synth_closed. Qed.
+Print Assumptions accepted_expressions_mention_declared_names_only.
 
 (** non-vacuity and sensitivity: a two-function file passes; using an undeclared name, a second declaration
     in one scope, an unused local and an unused import are each reported *)
